@@ -83,6 +83,20 @@ Theorem C19_abort :
 Proof. exact C19Facts.abort. Qed.
 Print Assumptions C19_abort.
 
+(* Whatever credentials the process starts with — plain root; real ids already
+   those of the account but effective and saved ids 0 and root's groups (a
+   set-uid-root launcher); already the account — a start-up that reaches Running
+   ends with real, effective and saved uid = the configured user (if any), real,
+   effective and saved gid = the configured group (if any), and no supplementary
+   groups if either is configured.  (final_cred interprets the recorded calls with
+   the Linux semantics of setgroups / setre*id / setres*id / set*id.) *)
+Theorem C19_final_credentials :
+  forall o st,
+  exists tr, run_initialize_from prog st o None = Running tr /\
+             final_cred (start_cred st) tr = wanted_cred o (start_cred st).
+Proof. exact C19Facts.final_credentials. Qed.
+Print Assumptions C19_final_credentials.
+
 (* best-effort = os.setpgrp / os.getpgrp only; in particular no privilege step,
    not the bind, not the key loading, not the account look-ups *)
 Theorem C19_best_effort_is_not_a_privilege_step :
